@@ -56,6 +56,59 @@ theorem valuesOn_error_kind (w : World K) (kind : ValKind) (b : Broker K) (l : L
           | error e2 => rw [hr] at h; cases h; exact ih hr
           | ok vs => rw [hr] at h; cases h
 
+/-- one contract is valued iff it is flat or its liquidation side is quoted -/
+theorem valueOf_ok_iff (w : World K) (kind : ValKind) (b : Broker K) (k : Key) :
+    (∃ v, valueOf w kind b k = .ok v) ↔ (b.pos k = 0 ∨ liqPrice b k (b.pos k) ≠ none) := by
+  constructor
+  · rintro ⟨v, hv⟩
+    by_cases h0 : b.pos k = 0
+    · exact Or.inl h0
+    · right
+      intro hn
+      rw [valueOf_missing w kind b k h0 hn] at hv
+      cases hv
+  · rintro (h0 | hq)
+    · exact ⟨0, flat_needs_no_quote w kind b k h0⟩
+    · by_cases h0 : b.pos k = 0
+      · exact ⟨0, flat_needs_no_quote w kind b k h0⟩
+      · unfold valueOf
+        simp only [h0, if_false]
+        rw [liq_side b k (b.pos k) h0]
+        cases hp : liqPrice b k (b.pos k) with
+        | none => exact absurd hp hq
+        | some p => cases kind <;> exact ⟨_, rfl⟩
+
+/-- **Exactly when**: `holdings_values` over any contract list succeeds iff every contract in it is flat or has
+    a quote on its liquidation side - it raises for a missing price and *only* for a missing price needed by a
+    non-zero position (no false refusals: flat contracts, and the unused side of a held one, may be unquoted). -/
+theorem valuesOn_ok_iff (w : World K) (kind : ValKind) (b : Broker K) (l : List Key) :
+    (∃ vs, valuesOn w kind b l = .ok vs) ↔ ∀ k ∈ l, b.pos k = 0 ∨ liqPrice b k (b.pos k) ≠ none := by
+  induction l with
+  | nil => simp [valuesOn]
+  | cons x xs ih =>
+      constructor
+      · rintro ⟨vs, hvs⟩ k hk
+        unfold valuesOn at hvs
+        cases hx : valueOf w kind b x with
+        | error e => rw [hx] at hvs; cases hvs
+        | ok v =>
+            rw [hx] at hvs
+            cases hr : valuesOn w kind b xs with
+            | error e => rw [hr] at hvs; cases hvs
+            | ok vs' =>
+                rcases List.mem_cons.mp hk with rfl | hin
+                · exact (valueOf_ok_iff w kind b k).mp ⟨v, hx⟩
+                · exact (ih.mp ⟨vs', hr⟩) k hin
+      · intro h
+        obtain ⟨v, hv⟩ := (valueOf_ok_iff w kind b x).mpr (h x List.mem_cons_self)
+        obtain ⟨vs, hvs⟩ := ih.mpr (fun k hk => h k (List.mem_cons_of_mem _ hk))
+        exact ⟨(x, v) :: vs, by unfold valuesOn; rw [hv, hvs]⟩
+
+/-- for the held contracts: `holdings_values(kind)` -/
+theorem valuesOf_ok_iff (w : World K) (kind : ValKind) (b : Broker K) :
+    (∃ vs, valuesOf w kind b = .ok vs) ↔ ∀ k ∈ b.held, b.pos k = 0 ∨ liqPrice b k (b.pos k) ≠ none :=
+  valuesOn_ok_iff w kind b b.held
+
 /-- **Valuation fails loudly**: if a held contract has a non-zero position and no quote on its
     liquidation side (never quoted, NaN, discontinued), `net_liquidation_value` — raising or not —
     returns an error, never a number. -/
